@@ -172,7 +172,11 @@ def enumeration(tier):
     single = ["rhobeg<=0", "rhobeg=0", "rhoend<=0", "rhobeg<=rhoend", "rhobeg==rhoend", "npt<n+1", "maxfun<=0", "maxfun<0", "gap<2rhobeg",
               "x0-not-vector", "lower-shape", "upper-shape", "h-without-prox", "h-without-lh", "lh<=0", "lh=0", "pair:full_geom+reduce_delta",
               "pair:full_rank+perturb", "pair:parallel-without-random", "pair:reset_rho-without-reset_delta", "both-noise-levels",
-              "bad-param-value"]
+              "bad-param-value",
+              # validation must not depend on which other features are switched on (the checks of the bounds used to run only
+              # after scaling / the conversion of the box into a projection had already consumed them), and NaN is not a radius
+              "lower-shape+scaling", "upper-shape+scaling", "lower-shape+projections", "zero-width+scaling", "reversed+scaling",
+              "rhobeg=nan", "rhoend=nan", "lh=nan", "x0-nan", "lower-nan", "npt>quadratic+coordinate-init"]
     for c in single:
         for p in probs[:3]:
             out.append(dict(type="invalid", classes=[c], problem=p))
@@ -331,6 +335,48 @@ def apply_invalid(cfg, kw, cls, n):
         up["noise.multiplicative_noise_level"] = 0.1
     elif cls == "bad-param-value":
         up["tr_radius.eta1"] = -0.25
+    elif cls in ("lower-shape+scaling", "upper-shape+scaling"):
+        kw["bounds"] = (-10.0 * np.ones(n + 1), 10.0 * np.ones(n)) if cls.startswith("lower") else (-10.0 * np.ones(n), 10.0 * np.ones(n + 2))
+        kw["scaling_within_bounds"] = True
+        kw.pop("projections", None)
+    elif cls == "lower-shape+projections":
+        kw["bounds"] = (-10.0 * np.ones(n + 1), 10.0 * np.ones(n))
+        kw["projections"] = [lambda x: np.array(x, dtype=float)]
+        kw.pop("scaling_within_bounds", None)
+        kw.pop("npt", None)
+    elif cls in ("zero-width+scaling", "reversed+scaling"):
+        x0 = kw["_x0"]
+        lo, hi = x0 - 1.0, x0 + 1.0
+        if cls.startswith("zero"):
+            lo[0] = hi[0] = x0[0]
+        else:
+            lo[0], hi[0] = x0[0] + 1.0, x0[0] - 1.0
+        kw["bounds"] = (lo, hi)
+        kw["scaling_within_bounds"] = True
+        kw.pop("projections", None)
+        kw.pop("rhobeg", None)
+    elif cls == "rhobeg=nan":
+        kw["rhobeg"] = float("nan")
+    elif cls == "rhoend=nan":
+        kw["rhoend"] = float("nan")
+    elif cls == "lh=nan":
+        kw["h"] = lambda x: 0.1 * float(np.abs(x).sum())
+        kw["prox_uh"] = lambda x, u: np.sign(x) * np.maximum(np.abs(x) - 0.1 * u, 0)
+        kw["lh"] = float("nan")
+    elif cls == "x0-nan":
+        kw["_x0"] = kw["_x0"].copy()
+        kw["_x0"][-1] = np.nan
+    elif cls == "lower-nan":
+        x0 = kw["_x0"]
+        lo, hi = x0 - 1.0, x0 + 1.0
+        lo[0] = np.nan
+        kw["bounds"] = (lo, hi)
+        kw.pop("scaling_within_bounds", None)
+        kw.pop("projections", None)
+    elif cls == "npt>quadratic+coordinate-init":
+        kw["npt"] = (n + 1) * (n + 2) // 2 + 1
+        up["init.random_initial_directions"] = False
+        kw.pop("projections", None)
     else:
         raise ValueError(cls)
 
@@ -556,6 +602,12 @@ def make_sampled_cfg(seed, i):
         up["logging.save_poisedness"] = bool(r() < 0.5)
         up["logging.save_xk"] = bool(r() < 0.3)
     campaign.maybe_failpoint(cfg, rng, p=0.1)
+    # the two remaining arguments of solve(): progress table on stdout, logging switched off
+    r3 = np.random.default_rng([int(seed), NUM, int(i), 5])
+    if r3.random() < 0.2:
+        cfg["args"]["print_progress"] = True
+    if r3.random() < 0.2:
+        cfg["args"]["do_logging"] = False
     return cfg
 
 
@@ -564,8 +616,18 @@ def run_sampled(case, res):
     cfg = case.get("cfg") or make_sampled_cfg(case["seed"], case["i"])
     case["cfg"] = cfg
     np.random.seed(case["i"] % 1000)
-    run = gen.run_cfg(cfg, timeout=(150 if cfg.get("proj") else 90))
+    import io, contextlib
+    out = io.StringIO()
+    with contextlib.redirect_stdout(out):
+        run = gen.run_cfg(cfg, timeout=(150 if cfg.get("proj") else 90))
     oracles.common_stats(run, st)
+    if cfg["args"].get("print_progress"):
+        st["print_progress_runs"] = 1
+        st["print_progress_lines"] = len(out.getvalue().splitlines())
+    if cfg["args"].get("do_logging") is False:
+        st["do_logging_off_runs"] = 1
+        if run.ctx.evalpairs:
+            res["viol"].append(V("logged-with-do_logging-off", "do_logging=False but %d evaluation lines were logged" % len(run.ctx.evalpairs)))
     if run.timeout:
         res["inconclusive"].append("watchdog")
         return
